@@ -50,6 +50,6 @@ PROPERTY = {
         }, carries_lemmas=("lemma_finish_is_token", "lemma_fold_prefix", "lemma_fold_concat")),
     ],
     "trusted_base": ["Verus/Z3", "Kani/CBMC soundness; cvc5 for hash equalities", "correspondence by name between the uninterpreted spec_mix / spec_le_pair / spec_finish of the Verus unit and ref_mix / getblock / ref_finish of kani/C03 (the Verus unit is proved for every interpretation satisfying the three contracts)", "Ord::min, slice copy_from_slice, bytes::Buf::advance, &array[..], slice::is_empty, Default for [u8;16] as external_body contracts", "std::num::Wrapping re-declared as a same-shape tuple struct", "std::rt::thread_cleanup stub"],
-    "assumptions": [],
+    "assumptions": ["hasher total length fits usize (precondition of write)", "by-name correspondence spec_mix/spec_le_pair/spec_finish (Verus, uninterpreted) <-> ref_mix/getblock/ref_finish (Kani reference)", "finish is compared with the reference at three total lengths per tail length (not for a symbolic length)"],
     "not_covered": ["calculate_token_for_partition_key (the SerializedValues-based variant) and null key components", "partitioner name of the statement == table's (metadata)"],
 }
